@@ -20,6 +20,9 @@ ASSUMPTIONS = ["atoms match on element symbol and bonds on RDKit bond type (what
 TIMEOUT = {"quick": 900, "thorough": 3000}
 
 CONSTRUCTED = [
+    "O=C1CO1", "CC1OC1=O", "O=C1OC1C", "C1OC(C)O1", "O=C1CC(=O)O1", "O=C1NC1", "N1C(=O)C1C", "C1SC1=O",
+    "C[N](C)(C)->[O]", "C[N](=O)->[O]", "c1cc[n](->[O])cc1", "C[S](C)->[O]", "CC[N](C)(->[O])CC", "C[N+](C)(C)[O-]",
+    "CP(C)(C)->[O]", "N->[Pt](Cl)(Cl)<-N", "CO->[Zn+2]", "CC(=O)O->[Cu+2]",
     "C1OCO1", "C1COCO1", "O1COCOC1", "COCOC", "C1OC1", "OC1OC1", "Oc1ccc[nH]1", "COc1ccccn1", "CCOc1ccccn1",
     "Oc1cccccc1", "Oc1ccccn1", "Oc1ccncc1", "Oc1ccco1", "Oc1cccs1", "c1ccc2[nH]ccc2c1", "Oc1ccc2ccccc2c1",
     "OC1=CC=CC=C1", "O=C1OC(=O)C1", "O=C1CCC(=O)O1", "CC(=O)OC(C)=O", "O=C1OCCO1", "NC(=O)OC", "NC(N)=O",
